@@ -180,7 +180,8 @@ def instrument():
     E, I, B = ino.InotifyEmitter, ic.Inotify, ib.InotifyBuffer
     return vsched.instrument(
         line_modules=[api, wd.mod("watchdog.utils"), ino, ib, dq, pol],
-        instr_functions=[E.queue_events, E.on_thread_stop, I.close, B.on_thread_stop, api.BaseObserver.dispatch_events],
+        instr_functions=[(E, "queue_events"), (E, "on_thread_stop"), (I, "close"), (B, "on_thread_stop"),
+                         (api.BaseObserver, "dispatch_events")],
         exclude=EXCLUDE + ("InotifyEmitter.__init__", "InotifyEmitter.get_event_mask_from_filter",
                            "InotifyEmitter.get_event_mask_from_filter.<locals>.wanted", "InotifyBuffer.__init__",
                            "PollingEmitter.__init__", "PollingObserver.__init__", "PollingObserverVFS.__init__",
